@@ -125,6 +125,6 @@ structure WavFile.Wf (w : WavFile) : Prop where
   mid : ∀ o ∈ w.mid, o.Wf
   post : ∀ o ∈ w.post, o.Wf
   note : ∀ n, w.note = some n → n < 4294967296
-  small : w.bytes.length < 4294967295
+  small : w.bytes.length ≤ 2147483647   -- the largest file `Wave_File::load_file` reads
 
 end Ctrmml.Alloc
